@@ -2,7 +2,13 @@
    nested groups is one of the five ContentMode variants; REF_ITEMS slices in range and present), evaluated on the
    regenerated tables (Spec/SpecReal.v over Gen/SpecTables.v), and nametab_ok of the EnumItem table (from_bytes). *)
 From AV Require Import Base.Bytes Base.Outcome Hash.HashModel Spec.SpecOps Spec.SpecReal Xml.TablesOk Tree.NoPanic.
-From AV Require Import Hash.HashRealEnum.
+From AV Require Import Hash.HashRealEnum Hash.HashRealElement.
 
 Lemma tables_ok12_real : tables_ok12 RT = true.
 Proof. vm_compute. reflexivity. Qed.
+
+Lemma en_ok_real : nametab_ok tab_enum = true.
+Proof. vm_compute. reflexivity. Qed.
+
+Lemma short_ok_real : name_ok tab_element (name_short_name RT).
+Proof. unfold name_ok. vm_compute. discriminate. Qed.
